@@ -15,7 +15,7 @@ from . import common as C
 from . import runtime as R
 
 DRIVER = "acq_runtime"
-COSIM_CLASSES = ("single", "two", "mon", "latemon", "holdmon", "abort", "abortmon", "stofault", "camfault", "slowmon", "restart", "reconf")
+COSIM_CLASSES = ("single", "two", "mon", "latemon", "holdmon", "abort", "abortmon", "stofault", "camfault", "slowmon", "restart", "reconf", "remap")
 
 
 def sig_of(msg):
@@ -81,6 +81,12 @@ def gen(rng, cls):
         streams[0]["n"] = 1000
         window = ["start", "sleep %d" % rng.randrange(1, 15), "map 0", "sleep %d" % rng.randrange(0, 15), "abort", "unmap 0 all",
                   "reconfigure %d" % n, "start", "map 0", "unmap 0 all", "monwait 0", "stop"]
+    elif cls == "remap":
+        # C02 at pipeline level: the client holds a region while the source laps the ring, and (a usage error) asks for a second
+        # map without unmapping: the call is refused and must leave the held region alone
+        streams[0]["n"] = rng.choice([20, 60])
+        window = ["start", "sleep %d" % rng.randrange(1, 12), "map 0"] + ["sleep %d" % rng.randrange(0, 9), "map 0"] * rng.choice([1, 1, 2]) + \
+                 ["sleep %d" % rng.randrange(0, 25), rng.choice(["unmap 0 all", "unmap 0 1"]), "monwait 0", "stop"]
     elif cls == "reconf":
         # acquire_configure while the acquisition runs (it re-arms the storage, so the run is disturbed), then stop or abort,
         # then a regular acquisition
